@@ -7,12 +7,15 @@
    of the MODELLED code (DnsName.v, DnsMsg.v, Client.v -- validated against the C by the
    differential runs of checks/c06.py) for ALL datagrams and ALL event lists.  What they do not
    carry: undefined behaviour at the level of the compiled program (signed shifts/overflows, the
-   stack layout, uninitialised bytes, libc/zlib internals) and the handshake functions of client.c,
-   which have no model: those are observed by the ASan/UBSan streams of checks/c06.py. *)
+   stack layout, uninitialised bytes, libc/zlib internals): those are observed by the ASan/UBSan
+   streams of checks/c06.py.  The handshake functions built on handshake_waitdns have a sequencing model
+   (Handshake.v: which reply is taken, retries, what each step stores), tied to the C by scripted replies;
+   the two handshake theorems at the end are about that model.  handshake_login, the raw-UDP login and
+   client_handshake as a whole are not modelled. *)
 From Coq Require Import List NArith ZArith Arith Bool.
 From Iodine Require Import Generated.SrcConsts Base Codec Hostname DnsName DnsMsg Client
      DecodeSafetyProofs DecodeSafetyMx DecodeSafetyAnswer DecodeTermination DecodeNul ClientStages
-     ClientSafetyProofs ClientInvariant ClientUnmatched.
+     ClientSafetyProofs ClientInvariant ClientUnmatched Handshake HandshakeProofs.
 Import ListNotations.
 
 (* ------------------------------------------------------------------------------------------ *)
@@ -203,3 +206,50 @@ Definition ex_state : cstate := client_init 3%N [116%N] 0%N 255 15%N false true 
 Example ex_unmatched : unmatched ex_state ex_mx /\ c_dns ex_state = true /\
   td_name_ok ex_state (td_name0 (reply_of ex_mx)) = true.
 Proof. vm_compute. split; [right; reflexivity|split; reflexivity]. Qed.
+
+(* ------------------------------------------------------------------------------------------ *)
+(* C06_handshake_step_bounded ("processes each one in bounded time", handshake half): for every
+   handshake step of the model, every state and EVERY script of replies and time-outs -- hostile,
+   unfitting, erroneous, of any length -- the step ends after at most step_bound queries (5 for the
+   five-attempt steps, 3 for the tests, 3 x 7 patterns for the upstream autodetect, 12 for the
+   downstream autodetect, at most 27 for the query-type autodetect, 48 = 16 sizes x 3 attempts for the
+   fragment-size search), and it consumes the script from the front only: what is left is a suffix of
+   what was there.  No reply sequence keeps a step going. *)
+Theorem C06_handshake_step_bounded :
+  forall st s l,
+    (h_q (snd (fst (run_step st s l))) <= h_q s + step_bound st)%N /\
+    (exists pre, l = pre ++ snd (run_step st s l)).
+Proof. exact step_bounded. Qed.
+Print Assumptions C06_handshake_step_bounded.
+
+(* C06_handshake_ignores_unfitting ("replies that do not match its recent queries are ignored",
+   handshake half): a datagram whose DNS id reads as 0 -- never the id of a query, chunkid skips 0 --
+   delivered as it is at any point of any script changes nothing: with every such datagram removed
+   (strip) the step returns the same value and ends in the same state, and what is left of the script
+   is the stripped rest.  In particular such a datagram cannot end a retry loop, be taken for the
+   reply of a later query, or leave anything behind that a later comparison sees (the model of the
+   repaired code compares the bytes of the fitting reply only; before the repair of D23 the C did not:
+   corpus/C06 keeps the witness). *)
+Theorem C06_handshake_ignores_unfitting :
+  forall st s l, h_cid s <> 0%N ->
+    run_step st s (strip l) =
+    (fst (fst (run_step st s l)), snd (fst (run_step st s l)), strip (snd (run_step st s l))).
+Proof. intros st s l H; exact (proj2 (step_ignores_inert st s l H)). Qed.
+Print Assumptions C06_handshake_ignores_unfitting.
+
+(* non-vacuity: a well-formed NULL answer with DNS id 0 carrying "ZXDLEN" is inert; placed before the
+   fitting 2-byte reply "BA" of a codec switch (the D23 witness) the model switches to Base64 with or
+   without it, after one query *)
+Definition ex_stale : list N :=
+  [0;0;132;0;0;1;0;1;0;0;0;0;5;115;97;97;97;113;1;116;7;101;120;97;109;112;108;101;3;99;111;109;0;0;10;0;1;
+   192;12;0;10;0;1;0;0;0;0;0;6;90;88;68;76;69;78]%N.
+Definition ex_short : list N :=
+  [0;0;132;0;0;1;0;1;0;0;0;0;5;115;97;97;97;113;1;116;7;101;120;97;109;112;108;101;3;99;111;109;0;0;10;0;1;
+   192;12;0;10;0;1;0;0;0;0;0;2;66;65]%N.
+Example ex_handshake_inert :
+  inertb (ID 0%N ex_stale) = true /\
+  (let s0 := hs_init 1000%N 10%N 10%Z 5%Z true in
+   let r := run_step (SSwitchCodec 6%N) s0 [ID 0%N ex_stale; ID 2%N ex_short; IT] in
+   (h_up (snd (fst r)) = 1%N) /\ (h_q (snd (fst r)) = 1%N) /\ (snd r = [IT]) /\
+   (run_step (SSwitchCodec 6%N) s0 [ID 2%N ex_short; IT] = r)).
+Proof. vm_compute. repeat split. Qed.
